@@ -102,8 +102,9 @@ func (cr *concRun) newTx(r *rand.Rand, g int, localCall bool) *txrec {
 		nonce = 0
 	case x < 16:
 		chain = "own"
-	case x < 19:
-		dl, gas = slotBytes+100, 200000
+	case x < 21: // two to four slots
+		dl = slotsData(2+r.Intn(3), 100)
+		gas = zeroGas(dl) + 1000
 	}
 	t := buildTx(cr.c.I*100000+id, a, nonce, price, gas, val, dl, 0, chain)
 	t.black = a == accounts[blackIdx]
@@ -291,6 +292,23 @@ func (cr *concRun) observer(stop *int32) {
 		}
 		if listed != len(ix.All) {
 			note("indexed-not-listed", fmt.Sprintf("concurrent snapshot: %d listed, %d indexed", listed, len(ix.All)))
+		}
+		// slot limit in every atomic view: above it the pool may hold exempt transactions only
+		slots, remotes := 0, 0
+		cr.mu.Lock()
+		for h, local := range ix.All {
+			if t := cr.byHash[h]; t != nil {
+				slots += t.slots()
+			}
+			if !local {
+				remotes++
+			}
+		}
+		cr.mu.Unlock()
+		if limit := int(cr.lim.GlobalSlots + cr.lim.GlobalQueue); slots > limit && remotes > 0 {
+			note("slot-limit-exceeded", fmt.Sprintf("concurrent snapshot: the pool holds %d slots, limit GlobalSlots+GlobalQueue = %d, %d of its %d transactions are not exempt", slots, limit, remotes, len(ix.All)))
+		} else if remotes > 0 {
+			cr.c.Run.Max(fmt.Sprintf("conc_slots_held_with_remote_txs:limit_%d", limit), int64(slots))
 		}
 		after := cr.tick() // the view was taken before this stamp
 		cr.mu.Lock()
@@ -575,6 +593,9 @@ func concurrent(c *core.Case) {
 	}
 	if f == nil {
 		f = checkStructural(v, head)
+	}
+	if f == nil {
+		f = checkSlots(v, lim)
 	}
 	if f == nil {
 		f = checkLimits(v, head, lim)
